@@ -212,6 +212,19 @@ def prop_c10(d, ex):
         return "FAIL component is not tagged as an encrypted TLV configuration that requests a reboot"
     if comp.actual_len != len(blob):
         return "FAIL declared length is not the blob length"
+    # the tags belong to THIS component: changing them on an earlier result (a component's description is a public, mutable
+    # dict) must not show up in the next configuration component, of this or of another file
+    comp.description[0xC5] = b"\x00"
+    comp.description[0xC8] = b"\x01\x02\x03"
+    for other in (f, Bf3File()):
+        try:
+            other.set_config(parse_dict(d), as_iterable(parse_blocks_list(ex)))
+        except Exception as e:
+            return f"FAIL a second set_config raises {type(e).__name__}: {e}"
+        c2 = other.components[-1]
+        if c2.description != {0xC3: b"\x03", 0xC2: b"\x02", 0xC1: b"\x03", 0xC5: b"\x01"} or c2.blob != blob:
+            return ("FAIL after the tags of an earlier configuration component were edited, a new configuration component carries "
+                    f"{dict(c2.description)!r}: the results share state")
     # split the blob: length-prefixed blocks closed by a single 00
     blocks, o = [], 0
     while True:
@@ -310,6 +323,30 @@ def prop_c12cfg(d):
             return f"FAIL {'device' if dev else 'project'} settings: {type(e).__name__}: {e}"
         if got != want:
             return f"FAIL {'device' if dev else 'project'} settings: identifier {got!r} instead of {want!r}"
+    # the users of the identifiers: the comments a file carries after `derive_comments_from_config(conf)` are those of THIS
+    # configuration, whatever identifiers it carried before (from a fuller configuration, the constructor or a file read)
+    try:
+        fresh = Bf3File({})
+        fresh.derive_comments_from_config(dict(conf))
+        want_c = {k: v for k, v in fresh.comments.items() if k in ("Configuration", "DeviceSettings", "RequiresBusAddress")}
+    except Exception:
+        return "ok"
+    full = dict(conf)
+    full.update({(0x620, 0x01): (12345).to_bytes(4, "big"), (0x620, 0x02): b"\x00\x05", (0x620, 0x03): b"Reader type 5",
+                 (0x620, 0x04): b"\x07", (0x620, 0x05): b"\x00\x4d", (0x620, 0x06): b"Door controller", (0x620, 0x07): b"\x03"})
+    for how in ("derived from a fuller configuration before", "given to the constructor"):
+        try:
+            if how.startswith("derived"):
+                f = Bf3File({})
+                f.derive_comments_from_config(full)
+            else:
+                f = Bf3File({"DeviceSettings": "12345-0000-0005-07 old", "Configuration": "12345-0077-0005-03 old", "Other": "kept"})
+            f.derive_comments_from_config(dict(conf))
+        except Exception as e:
+            return f"FAIL deriving the comments again ({how}) raises {type(e).__name__}: {e}"
+        got_c = {k: v for k, v in f.comments.items() if k in ("Configuration", "DeviceSettings", "RequiresBusAddress")}
+        if got_c != want_c:
+            return f"FAIL identifier comments {got_c!r} after identifiers were {how}; this configuration alone gives {want_c!r}"
     return "ok"
 
 
